@@ -34,6 +34,9 @@ Theorem C04_code_builds_the_modelled_index :
   exists_wf zip_exists = true /\ exists_wf tar_exists = true.
 Proof. exact archives_index_as_modelled. Qed.
 
+Theorem C04_code_reads_whole_members : zip_read_wf zip_read = true /\ tar_read_wf tar_read = true.
+Proof. exact archives_read_whole_members. Qed.
+
 (* for EVERY list of members (any order, any subset of directories having members of their own,
    no member twice, no empty file id): the index answers exists / read_dir exactly like the
    specification for the tree the members describe -- root and every implied intermediate
